@@ -21,6 +21,7 @@ import (
 var prop = flag.String("prop", "C18", "C05|C10|C11|C15|C18")
 var debugHist = flag.String("debughist", "", "")
 var debugScen = flag.Int("debugscen", -1, "print the focus points of one scenario")
+var part = flag.String("part", "", "C11: raw = the foreign-peer state search")
 var only = flag.String("only", "", "development aid: explore only the scenarios whose name contains this")
 
 // ---- shared helpers ----
@@ -484,6 +485,10 @@ func main() {
 	}
 	if *prop == "C01" {
 		c01Main(r)
+		return
+	}
+	if *prop == "C11" && *part == "raw" {
+		c11rawMain(r)
 		return
 	}
 	if *prop == "C10" {
